@@ -211,35 +211,38 @@ set_option maxRecDepth 100000
 /-! ### Part 2: decidable shape checks on a table, and what they give -/
 
 def nodesShapeOK (G : Table) (ctx l : Nat) (ns : List Nat) : Bool :=
-  G.forms.any fun f => G.has f && f.origin == ctx && label f == l && C10.visible f.items == ns.map Item.nt
+  G.forms.any fun f => f.origin == ctx && label f == l && C10.visible f.items == ns.map Item.nt
 
 def tokShapeOK (G : Table) (ctx l t : Nat) (ns : List Nat) : Bool :=
-  G.forms.any fun f => G.has f && f.origin == ctx && label f == l && C10.visible f.items == Item.tok t :: ns.map Item.nt
+  G.forms.any fun f => f.origin == ctx && label f == l && C10.visible f.items == Item.tok t :: ns.map Item.nt
 
 def blockOK (G : Table) (ctx l m : Nat) : Bool :=
-  G.forms.any fun f => G.has f && f.origin == ctx && label f == l && blockShape f.items == some m
+  G.forms.any fun f => f.origin == ctx && label f == l && blockShape f.items == some m
 
-theorem nodeOK_of_shape {G : Table} {ctx l : Nat} {ns : List Nat} {ks : Forest}
+theorem nodeOK_of_shape {G : Table} (hi : C10.IdsOK G = true) {ctx l : Nat} {ns : List Nat} {ks : Forest}
     (h : nodesShapeOK G ctx l ns = true) (hk : NodesOK G ns ks) : NodeOK G ctx l ks := by
   simp only [nodesShapeOK, List.any_eq_true, Bool.and_eq_true, beq_iff_eq] at h
-  obtain ⟨f, _, ⟨⟨⟨hf, ho⟩, hl⟩, hv⟩⟩ := h
-  exact ⟨f, hf, ho, hl, derives_nodes hv hk⟩
+  obtain ⟨f, hm, ⟨⟨ho, hl⟩, hv⟩⟩ := h
+  exact ⟨f, C10.idsOK_has G hi hm, ho, hl, derives_nodes hv hk⟩
 
-theorem nodeOK_of_tok {G : Table} {ctx l t : Nat} {s : C10.Text} {ns : List Nat} {ks : Forest}
+theorem nodeOK_of_tok {G : Table} (hi : C10.IdsOK G = true) {ctx l t : Nat} {s : C10.Text} {ns : List Nat} {ks : Forest}
     (h : tokShapeOK G ctx l t ns = true) (hk : NodesOK G ns ks) : NodeOK G ctx l (.leaf t s ks) := by
   simp only [tokShapeOK, List.any_eq_true, Bool.and_eq_true, beq_iff_eq] at h
-  obtain ⟨f, _, ⟨⟨⟨hf, ho⟩, hl⟩, hv⟩⟩ := h
-  exact ⟨f, hf, ho, hl, derives_tok_nodes hv hk⟩
+  obtain ⟨f, hm, ⟨⟨ho, hl⟩, hv⟩⟩ := h
+  exact ⟨f, C10.idsOK_has G hi hm, ho, hl, derives_tok_nodes hv hk⟩
 
-theorem nodeOK_of_block {G : Table} {ctx l m : Nat} {ks : Forest}
+theorem nodeOK_of_block {G : Table} (hi : C10.IdsOK G = true) {ctx l m : Nat} {ks : Forest}
     (h : blockOK G ctx l m = true) (hk : AllOf G m ks) : NodeOK G ctx l ks := by
   simp only [blockOK, List.any_eq_true, Bool.and_eq_true, beq_iff_eq] at h
-  obtain ⟨f, _, ⟨⟨⟨hf, ho⟩, hl⟩, hv⟩⟩ := h
-  exact ⟨f, hf, ho, hl, derives_block hv hk⟩
+  obtain ⟨f, hm, ⟨⟨ho, hl⟩, hv⟩⟩ := h
+  exact ⟨f, C10.idsOK_has G hi hm, ho, hl, derives_block hv hk⟩
 
 /-! ### the generated table -/
 
 abbrev G0 : Table := C10.gen
+
+/-- `forms[i].id = i` for the generated table (also `C10.gen_idsOK`) -/
+theorem ids_G0 : C10.IdsOK G0 = true := by decide +kernel
 
 /-- id of a label / nonterminal name -/
 def L (s : String) : Nat := labelId (some (b s))
@@ -263,7 +266,7 @@ theorem strKids_nodesOK (args : List Bytes) :
   | nil => exact .nil
   | cons a as ih =>
     simp only [strKids, PForest.intern, List.length_cons, List.replicate_succ]
-    exact .cons (nodeOK_of_tok string_fact .nil) ih
+    exact .cons (nodeOK_of_tok ids_G0 string_fact .nil) ih
 
 /-- a statement `Tree(label, k × string)` in context `ctx` -/
 def stmtOK (ctx : Nat) (l : Bytes) (k : Nat) : Bool :=
@@ -272,12 +275,12 @@ def stmtOK (ctx : Nat) (l : Bytes) (k : Nat) : Bool :=
 theorem stmt_allOf {ctx : Nat} {l : Bytes} {args : List Bytes} (h : stmtOK ctx l args.length = true) :
     AllOf G0 ctx (stmt l args).intern := by
   simp only [stmt, PForest.intern]
-  exact .cons (nodeOK_of_shape h (strKids_nodesOK args)) .nil
+  exact .cons (nodeOK_of_shape ids_G0 h (strKids_nodesOK args)) .nil
 
 theorem block_allOf {ctx m : Nat} {l : Option Bytes} {kids : PForest} (h : blockOK G0 ctx (labelId l) m = true)
     (hk : AllOf G0 m kids.intern) : AllOf G0 ctx (block l kids).intern := by
   simp only [block, PForest.intern]
-  exact .cons (nodeOK_of_block h hk) .nil
+  exact .cons (nodeOK_of_block ids_G0 h hk) .nil
 
 
 /-! ### Part 3a: block_steps grouping = splitting the program at its BUILD markers -/
@@ -426,6 +429,548 @@ theorem groups_distinct (sgs : List (Bytes × List TStep)) : ∀ g0 : List (Opti
       have : sg'.1 = sg.1 := by simpa using heq
       exact hnd.1 (this ▸ List.mem_map_of_mem hsg')
     · intro sg' hsg'; exact hne sg' (by simp [hsg'])
+
+
+/-! ### Part 3b: DataTransformBlock -/
+
+def dtN : Nat := L "data_transform"
+def stepsN : Nat := L "steps"
+def termN : Nat := L "termination"
+def tsN : Nat := L "transform_statement"
+def tstN : Nat := L "termination_statement"
+
+theorem dt_fact : nodesShapeOK G0 dtN dtN [stepsN, termN] = true := by decide +kernel
+theorem steps_fact : blockOK G0 stepsN stepsN tsN = true := by decide +kernel
+theorem term_fact : nodesShapeOK G0 termN termN [tstN] = true := by decide +kernel
+
+theorem PForest.nil_append (x : PForest) : (PForest.nil ++ x) = x := rfl
+theorem PForest.append_nil (x : PForest) : (x ++ PForest.nil) = x := by
+  show PForest.append x .nil = x
+  induction x with
+  | nil => rfl
+  | tok o t r ih => simp [PForest.append, ih]
+  | node l k r _ ih => simp [PForest.append, ih]
+
+theorem PForest.append_assoc (x y z : PForest) : (x ++ y) ++ z = x ++ (y ++ z) := by
+  show PForest.append (PForest.append x y) z = PForest.append x (PForest.append y z)
+  induction x with
+  | nil => rfl
+  | tok o t r ih => simp [PForest.append, ih]
+  | node l k r _ ih => simp [PForest.append, ih]
+
+theorem flatten_cons (f : PForest) (fs : List PForest) : PForest.flatten (f :: fs) = f ++ PForest.flatten fs := rfl
+
+theorem flatten_append (xs ys : List PForest) :
+    PForest.flatten (xs ++ ys) = PForest.flatten xs ++ PForest.flatten ys := by
+  induction xs with
+  | nil => rfl
+  | cons x xs ih => simp [flatten_cons, ih, PForest.append_assoc]
+
+theorem flatten_allOf {ctx : Nat} (fs : List PForest) (h : ∀ f ∈ fs, AllOf G0 ctx f.intern) :
+    AllOf G0 ctx (PForest.flatten fs).intern := by
+  induction fs with
+  | nil => exact .nil
+  | cons f fs ih =>
+    rw [flatten_cons, intern_append]
+    exact (h f (by simp)).append (ih fun g hg => h g (by simp [hg]))
+
+/-- the option goes to `steps` as a valid transform statement -/
+def StepCls (o : DOpt) : Prop := (dtClassify o).2 = .nil ∧ AllOf G0 tsN (dtClassify o).1.intern
+
+/-- the option goes to `termination` as a valid termination statement -/
+def TermCls (o : DOpt) : Prop :=
+  (dtClassify o).1 = .nil ∧ ∃ l args, (dtClassify o).2 = stmt l args ∧ stmtOK tstN l args.length = true
+
+theorem dtSteps_cons (o : DOpt) (ds : List DOpt) : dtSteps (o :: ds) = (dtClassify o).1 ++ dtSteps ds := rfl
+theorem dtTerms_cons (o : DOpt) (ds : List DOpt) : dtTerms (o :: ds) = (dtClassify o).2 ++ dtTerms ds := rfl
+
+theorem dtSteps_allOf (ds : List DOpt) (h : ∀ o ∈ ds, StepCls o ∨ TermCls o) : AllOf G0 tsN (dtSteps ds).intern := by
+  induction ds with
+  | nil => exact .nil
+  | cons o ds ih =>
+    rw [dtSteps_cons, intern_append]
+    refine AllOf.append ?_ (ih fun o' ho' => h o' (by simp [ho']))
+    rcases h o (by simp) with hs | ht
+    · exact hs.2
+    · rw [ht.1]; exact .nil
+
+theorem dtTerms_steps (ds : List DOpt) (h : ∀ o ∈ ds, StepCls o) : dtTerms ds = .nil := by
+  induction ds with
+  | nil => rfl
+  | cons o ds ih =>
+    rw [dtTerms_cons, (h o (by simp)).1, ih fun o' ho' => h o' (by simp [ho'])]
+    rfl
+
+theorem dtTerms_split (pre post : List DOpt) (t : DOpt) (hpre : ∀ o ∈ pre, StepCls o) (hpost : ∀ o ∈ post, StepCls o) :
+    dtTerms (pre ++ t :: post) = (dtClassify t).2 := by
+  induction pre with
+  | nil =>
+    simp only [List.nil_append, dtTerms_cons, dtTerms_steps post hpost, PForest.append_nil]
+  | cons o pre ih =>
+    simp only [List.cons_append, dtTerms_cons, (hpre o (by simp)).1, PForest.nil_append]
+    exact ih fun o' ho' => hpre o' (by simp [ho'])
+
+/-- `DataTransformBlock(steps)` is a valid `data_transform` -/
+def DtOK (ds : List DOpt) : Prop := AllOf G0 dtN (dtKids ds).intern
+
+theorem dt_ok (pre post : List DOpt) (t : DOpt) (hpre : ∀ o ∈ pre, StepCls o) (ht : TermCls t)
+    (hpost : ∀ o ∈ post, StepCls o) : DtOK (pre ++ t :: post) := by
+  have hS : AllOf G0 tsN (dtSteps (pre ++ t :: post)).intern := by
+    apply dtSteps_allOf
+    intro o ho
+    simp only [List.mem_append, List.mem_cons] at ho
+    rcases ho with h | rfl | h
+    · exact .inl (hpre o h)
+    · exact .inr ht
+    · exact .inl (hpost o h)
+  obtain ⟨_, l, args, hT, hok⟩ := ht
+  unfold DtOK dtKids
+  rw [dtTerms_split pre post t hpre hpost, hT]
+  simp only [PForest.intern, stmt]
+  refine .cons (nodeOK_of_shape ids_G0 dt_fact (.cons (nodeOK_of_block ids_G0 steps_fact hS) (.cons ?_ .nil))) .nil
+  exact nodeOK_of_shape ids_G0 term_fact (.cons (nodeOK_of_shape ids_G0 hok (strKids_nodesOK args)) .nil)
+
+/-! classification of the options the two program types produce -/
+
+/-- classification of a `str` option by name: (is a termination, label) -/
+def bareCls (n : Bytes) : Option (Bool × Bytes) :=
+  if dtFlagSteps.contains n then some (false, n)
+  else if dtTermOptions.contains n then some (true, dashToUnderscore n) else none
+
+theorem dtClassify_bare {n l : Bytes} {t : Bool} (h : bareCls n = some (t, l)) :
+    dtClassify (.bare n) = if t then (.nil, stmt l []) else (stmt l [], .nil) := by
+  unfold bareCls at h
+  unfold dtClassify
+  split at h
+  · rename_i h1; cases h; simp only [h1, ↓reduceIte, Bool.false_eq_true]
+  · rename_i h1
+    split at h
+    · rename_i h2; cases h; simp only [h1, h2, ↓reduceIte, Bool.false_eq_true]
+    · cases h
+
+def bareCheck (n : Bytes) (term : Bool) : Bool :=
+  match bareCls n with
+  | some (t, l) => t == term && stmtOK (if term then tstN else tsN) l 0
+  | none => false
+
+theorem bare_cls {n : Bytes} {term : Bool} (h : bareCheck n term = true) :
+    (term = true → TermCls (.bare n)) ∧ (term = false → StepCls (.bare n)) := by
+  unfold bareCheck at h
+  split at h
+  · rename_i t l hc
+    simp only [Bool.and_eq_true, beq_iff_eq] at h
+    obtain ⟨rfl, hok⟩ := h
+    have := dtClassify_bare hc
+    constructor
+    · intro ht; subst ht
+      simp only [if_true] at this hok
+      exact ⟨by rw [this], l, [], by rw [this], hok⟩
+    · intro ht; subst ht
+      simp only [Bool.false_eq_true, if_false] at this hok
+      exact ⟨by rw [this], by rw [this]; exact stmt_allOf (args := []) hok⟩
+  · cases h
+
+def pairCheck (n : Bytes) (term : Bool) : Bool :=
+  dtArgTerms.contains n == term && stmtOK (if term then tstN else tsN) n 1
+
+theorem pair_cls {n : Bytes} {term : Bool} (v : DArg) (h : pairCheck n term = true) :
+    (term = true → TermCls (.pair n v)) ∧ (term = false → StepCls (.pair n v)) := by
+  simp only [pairCheck, Bool.and_eq_true, beq_iff_eq] at h
+  obtain ⟨hc, hok⟩ := h
+  constructor
+  · intro ht; subst ht
+    simp only [if_true] at hok
+    have : dtClassify (.pair n v) = (.nil, stmt n [v.vts]) := by simp only [dtClassify, hc, ↓reduceIte]
+    exact ⟨by rw [this], n, [v.vts], by rw [this], hok⟩
+  · intro ht; subst ht
+    simp only [Bool.false_eq_true, if_false] at hok
+    have : dtClassify (.pair n v) = (stmt n [v.vts], .nil) := by
+      simp only [dtClassify, hc, Bool.false_eq_true, ↓reduceIte]
+    exact ⟨by rw [this], by rw [this]; exact stmt_allOf (args := [v.vts]) hok⟩
+
+theorem en_check (e : EnStep) : bareCheck (lower e.pyName) e.isTerm = true := by
+  cases e <;> decide +kernel
+
+theorem arg_check (a : ArgStep) : pairCheck (lower a.pyName) a.isTerm = true := by
+  cases a <;> decide +kernel
+
+theorem cls_toDOpt {t : TStep} {d : DOpt} (h : toDOpt t = some d) :
+    (t.isTerm = true → TermCls d) ∧ (t.isTerm = false → StepCls d) := by
+  cases t with
+  | build s => cases h
+  | static s v => cases h
+  | en e => cases h; exact bare_cls (en_check e)
+  | arg a v => cases h; exact pair_cls _ (arg_check a)
+
+theorem cls_recover (r : RStep) :
+    (r.isTerm = true → TermCls (recoverOpt r)) ∧ (r.isTerm = false → StepCls (recoverOpt r)) := by
+  cases r with
+  | append n => exact pair_cls _ (by decide +kernel : pairCheck (b "append") false = true)
+  | prepend n => exact pair_cls _ (by decide +kernel : pairCheck (b "prepend") false = true)
+  | base64 => exact bare_cls (by decide +kernel : bareCheck (b "base64") false = true)
+  | print => exact bare_cls (by decide +kernel : bareCheck (b "print") true = true)
+  | netbios => exact bare_cls (by decide +kernel : bareCheck (b "netbios") false = true)
+  | netbiosu => exact bare_cls (by decide +kernel : bareCheck (b "netbiosu") false = true)
+  | base64url => exact bare_cls (by decide +kernel : bareCheck (b "base64url") false = true)
+  | mask => exact bare_cls (by decide +kernel : bareCheck (b "mask") false = true)
+
+
+/-! ### Part 3c: well-formed groups / recover programs give valid data transforms -/
+
+theorem opts_append (x y : List TStep) : opts (x ++ y) = opts x ++ opts y := by
+  simp [opts, List.filterMap_append]
+
+theorem opts_stepCls (l : List TStep) (h : ∀ x ∈ l, x.isTerm = false) : ∀ o ∈ opts l, StepCls o := by
+  intro o ho
+  simp only [opts, List.mem_filterMap] at ho
+  obtain ⟨x, hx, hd⟩ := ho
+  exact (cls_toDOpt hd).2 (h x hx)
+
+theorem term_toDOpt {t : TStep} (h : t.isTerm = true) : ∃ d, toDOpt t = some d := by
+  cases t with
+  | build s => simp [TStep.isTerm] at h
+  | static s v => simp [TStep.isTerm] at h
+  | en e => exact ⟨_, rfl⟩
+  | arg a v => exact ⟨_, rfl⟩
+
+theorem wfGroup_split {g : List TStep} (h : wfGroup g = true) :
+    ∃ pre t, g = pre ++ [t] ∧ t.isTerm = true ∧ ∀ x ∈ pre, x.isTerm = false := by
+  unfold wfGroup at h
+  split at h
+  · rename_i t rest hr
+    simp only [Bool.and_eq_true, List.all_eq_true, Bool.not_eq_eq_eq_not, Bool.not_true] at h
+    refine ⟨rest.reverse, t, ?_, h.1, fun x hx => h.2 x (by simpa using hx)⟩
+    have := congrArg List.reverse hr
+    simpa using this
+  · cases h
+
+theorem dt_ok_group {g : List TStep} (h : wfGroup g = true) : DtOK (opts g) ∧ opts g ≠ [] := by
+  obtain ⟨pre, t, rfl, ht, hpre⟩ := wfGroup_split h
+  obtain ⟨d, hd⟩ := term_toDOpt ht
+  have ho : opts (pre ++ [t]) = opts pre ++ d :: [] := by
+    rw [opts_append]; simp [opts, hd]
+  rw [ho]
+  exact ⟨dt_ok (opts pre) [] d (opts_stepCls pre hpre) ((cls_toDOpt hd).1 ht) (by simp), by simp⟩
+
+theorem filter_one_split {α} (p : α → Bool) : ∀ l : List α, (l.filter p).length = 1 →
+    ∃ pre x post, l = pre ++ x :: post ∧ p x = true ∧ (∀ y ∈ pre, p y = false) ∧ (∀ y ∈ post, p y = false) := by
+  intro l
+  induction l with
+  | nil => intro h; simp at h
+  | cons a l ih =>
+    intro h
+    by_cases ha : p a = true
+    · refine ⟨[], a, l, rfl, ha, by simp, ?_⟩
+      simp only [List.filter_cons, ha, if_true, List.length_cons, Nat.add_eq_right, List.length_eq_zero_iff] at h
+      intro y hy
+      have : y ∉ l.filter p := by rw [h]; simp
+      simpa [List.mem_filter, hy] using this
+    · have ha' : p a = false := by simpa using ha
+      simp only [List.filter_cons, ha', Bool.false_eq_true, if_false] at h
+      obtain ⟨pre, x, post, rfl, hx, hpre, hpost⟩ := ih h
+      exact ⟨a :: pre, x, post, rfl, hx, by simpa [ha'] using hpre, hpost⟩
+
+theorem dt_ok_recover {l : List RStep} (h : (l.filter (·.isTerm)).length = 1) : DtOK (l.map recoverOpt) := by
+  obtain ⟨pre, x, post, rfl, hx, hpre, hpost⟩ := filter_one_split _ l h
+  rw [List.map_append, List.map_cons]
+  refine dt_ok _ _ _ ?_ ((cls_recover x).1 hx) ?_
+  · intro o ho
+    obtain ⟨r, hr, rfl⟩ := List.mem_map.mp ho
+    exact (cls_recover r).2 (hpre r hr)
+  · intro o ho
+    obtain ⟨r, hr, rfl⟩ := List.mem_map.mp ho
+    exact (cls_recover r).2 (hpost r hr)
+
+/-! the client block of a well-formed program -/
+
+def clientN : Nat := L "http_get_client_options"
+
+theorem header_fact : stmtOK clientN (b "header") 2 = true := by decide +kernel
+theorem parameter_fact : stmtOK clientN (b "parameter") 2 = true := by decide +kernel
+
+theorem pairStmts_allOf {l : Bytes} (h : stmtOK clientN l 2 = true) (ps : List (Bytes × Bytes)) :
+    AllOf G0 clientN (pairStmts l ps).intern := by
+  unfold pairStmts
+  apply flatten_allOf
+  intro f hf
+  obtain ⟨p, _, rfl⟩ := List.mem_map.mp hf
+  exact stmt_allOf (args := [_, _]) h
+
+theorem reqRun_groups {allowed : List Bytes} {prog : List TStep} (h : wfProgram allowed prog = true) :
+    (reqRun prog).groups = (splitBuilds prog).map fun sg => (some sg.1, opts sg.2) := by
+  simp only [wfProgram, Bool.and_eq_true, List.all_eq_true, decide_eq_true_eq] at h
+  obtain ⟨⟨hpre, hnd⟩, hg⟩ := h
+  unfold reqRun
+  rw [groups_fold]
+  have hseg : opts (segment prog) = [] := by
+    simp only [opts, List.filterMap_eq_nil_iff]
+    intro x hx
+    have := hpre x hx
+    cases x with
+    | static s v => rfl
+    | build s => rfl
+    | en e => simp [isStatic] at this
+    | arg a v => simp [isStatic] at this
+  rw [hseg]
+  simp only [appendTo, List.foldl_nil]
+  have := groups_distinct (splitBuilds prog) [] hnd (by simp) (fun sg hsg => (dt_ok_group (hg sg hsg).2).2)
+  simpa [appendTo] using this
+
+theorem request_allOf {allowed : List Bytes} {prog : List TStep} (h : wfProgram allowed prog = true)
+    (hb : ∀ s ∈ allowed, blockOK G0 clientN (labelId (some s)) dtN = true) :
+    AllOf G0 clientN (requestKids prog).intern := by
+  unfold requestKids
+  simp only [intern_append]
+  refine (pairStmts_allOf header_fact _).append ((pairStmts_allOf parameter_fact _).append ?_)
+  rw [reqRun_groups h]
+  apply flatten_allOf
+  intro f hf
+  simp only [List.map_map, List.mem_map, Function.comp] at hf
+  obtain ⟨sg, hsg, rfl⟩ := hf
+  simp only [wfProgram, Bool.and_eq_true, List.all_eq_true, List.contains_eq_mem, decide_eq_true_eq] at h
+  have := h.2 sg hsg
+  exact block_allOf (hb sg.1 this.1) (dt_ok_group this.2).1
+
+
+/-! ### Part 3d: the settings loop keeps every block a list of valid statements -/
+
+/-- nonterminal of the children of each block object -/
+def ctxOf : Blk → Nat
+  | .profile => L "value"
+  | .httpGet => L "http_get_options"
+  | .httpPost => L "http_post_options"
+  | .stage => L "stage_options"
+  | .procInj => L "process_inject_options"
+  | .dns => L "dns_beacon_options"
+  | .httpBeacon => L "http_beacon_options"
+  | .getClient => clientN
+  | .postClient => clientN
+
+def stN : Nat := L "stage_transform"
+def execN : Nat := L "execute_options"
+def gateN : Nat := L "beacon_gate_options"
+def httpOptsN : Nat := L "http_options"
+
+/-- the names an action puts into the tree exist in the grammar, in the right context and with the right arity -/
+def actOKb : Act → Bool
+  | .pass => true
+  | .profOpt name => Grammar.optionAlts.contains (toText name)
+  | .blkOpt k label => stmtOK (ctxOf k) label 1
+  | .blkConst k label _ => stmtOK (ctxOf k) label 1
+  | .uris => true
+  | .recover => true
+  | .request c => c == .getClient || c == .postClient
+  | .perms label _ _ => stmtOK (ctxOf .procInj) label 1
+  | .injT label => blockOK G0 (ctxOf .procInj) (labelId (some label)) stN
+  | .execute => true
+  | .allocator => true
+  | .gate => true
+
+theorem table_ok : actionTable.all (fun e => actOKb e.2.2) = true := by decide +kernel
+
+theorem actionOf_ok (idx : Nat) (v : PVal) : actOKb (actionOf idx v) = true := by
+  unfold actionOf
+  split
+  · rename_i x g a hf
+    have hm := List.mem_of_find?_eq_some hf
+    have := List.all_eq_true.mp table_ok _ hm
+    split
+    · rfl
+    · exact this
+  · rfl
+
+theorem option_fact : tokShapeOK G0 (L "value") (L "option") tO [strN] = true := by decide +kernel
+theorem uri_fact : stmtOK (ctxOf .httpGet) (b "uri") 1 = true := by decide +kernel
+theorem allocator_fact : stmtOK (ctxOf .procInj) (b "allocator") 1 = true := by decide +kernel
+theorem st_prepend_fact : stmtOK stN (b "prepend") 1 = true := by decide +kernel
+theorem st_append_fact : stmtOK stN (b "append") 1 = true := by decide +kernel
+theorem execute_fact : blockOK G0 (ctxOf .procInj) (L "execute") execN = true := by decide +kernel
+theorem exec_ct_fact : stmtOK execN (b "createthread_special") 1 = true := by decide +kernel
+theorem exec_crt_fact : stmtOK execN (b "createremotethread_special") 1 = true := by decide +kernel
+theorem exec_enable_fact : execEnable.all (fun s => stmtOK execN (dashToUnderscore (lower s)) 0) = true := by
+  decide +kernel
+theorem gate_fact : blockOK G0 (ctxOf .stage) (L "beacon_gate") gateN = true := by decide +kernel
+theorem gate_names_fact : gateLabels.all (fun s => stmtOK gateN (lower s) 0) = true := by decide +kernel
+theorem build_facts : [k "metadata", k "output", k "id"].all (fun s => blockOK G0 clientN (labelId (some s)) dtN) = true := by
+  decide +kernel
+theorem server_fact : blockOK G0 (ctxOf .httpGet) (L "server") httpOptsN = true := by decide +kernel
+theorem server_output_fact : blockOK G0 httpOptsN (L "output") dtN = true := by decide +kernel
+theorem get_client_fact : blockOK G0 (ctxOf .httpGet) (L "client") clientN = true := by decide +kernel
+theorem post_client_fact : blockOK G0 (ctxOf .httpPost) (L "client") clientN = true := by decide +kernel
+theorem top_facts :
+    blockOK G0 (L "value") (L "http_get") (ctxOf .httpGet) = true ∧
+    blockOK G0 (L "value") (L "http_post") (ctxOf .httpPost) = true ∧
+    blockOK G0 (L "value") (L "stage") (ctxOf .stage) = true ∧
+    blockOK G0 (L "value") (L "process_inject") (ctxOf .procInj) = true ∧
+    blockOK G0 (L "value") (L "dns_beacon") (ctxOf .dns) = true ∧
+    blockOK G0 (L "value") (L "http_beacon") (ctxOf .httpBeacon) = true := by decide +kernel
+
+def rootOKb : Bool :=
+  G0.forms.any fun f => label f == L "start" && blockShape f.items == some (L "value")
+theorem root_fact : rootOKb = true := by decide +kernel
+
+/-- the invariant of the loop -/
+structure Inv (st : St) : Prop where
+  blocks : ∀ k, AllOf G0 (ctxOf k) (st.f k).intern
+  recov : st.recover = [] ∨ DtOK st.recover
+
+theorem inv_init : Inv St.init := ⟨fun _ => .nil, .inl rfl⟩
+
+theorem inv_app {st : St} (h : Inv st) (k : Blk) {g : PForest} (hg : AllOf G0 (ctxOf k) g.intern) : Inv (st.app k g) := by
+  refine ⟨fun k' => ?_, h.recov⟩
+  simp only [St.app]
+  split
+  · rename_i he; subst he; rw [intern_append]; exact (h.blocks k').append hg
+  · exact h.blocks k'
+
+theorem optStmt_allOf (name s : Bytes) : AllOf G0 (L "value") (optStmt name s).intern := by
+  simp only [optStmt, PForest.intern, if_true]
+  exact .cons (nodeOK_of_tok ids_G0 option_fact (strKids_nodesOK [s])) .nil
+
+theorem wfScalar_vts {v : PVal} (h : wfScalar v = true) : ∃ s, vts v = some s := by
+  cases v <;> simp [wfScalar] at h <;> exact ⟨_, rfl⟩
+
+theorem execItem_ok (s : Bytes) : ∃ f, execItem (some s) = .ok f ∧ AllOf G0 execN f.intern := by
+  refine ⟨_, rfl, ?_⟩
+  rw [intern_append]
+  refine AllOf.append ?_ ?_
+  · split
+    · dsimp only
+      split
+      · exact stmt_allOf (args := [_]) exec_ct_fact
+      · split
+        · exact stmt_allOf (args := [_]) exec_crt_fact
+        · exact .nil
+    · exact .nil
+  · split
+    · rename_i hc
+      have hm : s ∈ execEnable := by simpa using hc
+      exact stmt_allOf (args := []) (List.all_eq_true.mp exec_enable_fact s hm)
+    · exact .nil
+
+theorem execKids_ok (l : List (Option Bytes)) (h : l.all wfExecItem = true) :
+    ∃ f, execKids l = .ok f ∧ AllOf G0 execN f.intern := by
+  induction l with
+  | nil => exact ⟨.nil, rfl, .nil⟩
+  | cons i is ih =>
+    simp only [List.all_cons, Bool.and_eq_true] at h
+    obtain ⟨r, hr, har⟩ := ih h.2
+    cases i with
+    | none => simp [wfExecItem] at h
+    | some s =>
+      obtain ⟨f, hf, haf⟩ := execItem_ok s
+      refine ⟨f ++ r, ?_, ?_⟩
+      · simp only [execKids, hf, hr]
+      · rw [intern_append]; exact haf.append har
+
+theorem injKids_allOf (l : List (Bool × Bytes)) : AllOf G0 stN (injKids l).intern := by
+  unfold injKids
+  rw [intern_append]
+  refine AllOf.append ?_ ?_
+  · split
+    · split
+      · exact .nil
+      · exact stmt_allOf (args := [_]) st_prepend_fact
+    · exact .nil
+  · split
+    · split
+      · exact .nil
+      · exact stmt_allOf (args := [_]) st_append_fact
+    · exact .nil
+
+theorem gateKids_allOf (l : List Bytes) (h : l.all gateLabels.contains = true) :
+    AllOf G0 gateN (PForest.flatten (l.map fun s => stmt (lower s) [])).intern := by
+  apply flatten_allOf
+  intro f hf
+  obtain ⟨s, hs, rfl⟩ := List.mem_map.mp hf
+  have hm : s ∈ gateLabels := by
+    have := List.all_eq_true.mp h s hs
+    simpa using this
+  exact stmt_allOf (args := []) (List.all_eq_true.mp gate_names_fact s hm)
+
+/-- one branch of the chain: well-formed value in, no exception, invariant kept -/
+theorem runAct_inv (uris : List (Option Bytes)) (st : St) (v : PVal) (a : Act) (ha : actOKb a = true)
+    (hw : wfAct uris a v = true) (hi : Inv st) : ∃ st', runAct uris st v a = .ok st' ∧ Inv st' := by
+  cases a with
+  | pass => exact ⟨st, rfl, hi⟩
+  | profOpt name =>
+    obtain ⟨s, hs⟩ := wfScalar_vts (by simpa [wfAct] using hw)
+    exact ⟨_, by simp only [runAct, hs], inv_app hi .profile (optStmt_allOf name s)⟩
+  | blkOpt k label =>
+    obtain ⟨s, hs⟩ := wfScalar_vts (by simpa [wfAct] using hw)
+    exact ⟨_, by simp only [runAct, hs], inv_app hi k (stmt_allOf (args := [s]) ha)⟩
+  | blkConst k label text =>
+    exact ⟨_, rfl, inv_app hi k (stmt_allOf (args := [_]) ha)⟩
+  | uris =>
+    have hu : ∃ us, uris.mapM id = some us := by
+      simp only [wfAct, List.all_eq_true] at hw
+      clear ha hi
+      induction uris with
+      | nil => exact ⟨[], rfl⟩
+      | cons u us ih =>
+        obtain ⟨r, hr⟩ := ih (fun x hx => hw x (by simp [hx]))
+        have := hw u (by simp)
+        cases u with
+        | none => simp at this
+        | some s => exact ⟨s :: r, by simp [hr]⟩
+    obtain ⟨us, hus⟩ := hu
+    exact ⟨st.app .httpGet (stmt (b "uri") [C12.valueToStringStr (joinComma us)]), by simp only [runAct, joinUris, hus],
+      inv_app hi .httpGet (stmt_allOf (args := [_]) uri_fact)⟩
+  | recover =>
+    cases v with
+    | recover l =>
+      refine ⟨_, rfl, ⟨hi.blocks, .inr (dt_ok_recover ?_)⟩⟩
+      simpa [wfAct] using hw
+    | _ => simp [wfAct] at hw
+  | request c =>
+    have hb := List.all_eq_true.mp build_facts
+    cases v with
+    | transform prog =>
+      have hc : ctxOf c = clientN := by
+        simp only [actOKb, Bool.or_eq_true, beq_iff_eq] at ha
+        rcases ha with rfl | rfl <;> rfl
+      refine ⟨_, rfl, inv_app hi c ?_⟩
+      rw [hc]
+      cases c with
+      | getClient =>
+        exact request_allOf (allowed := [k "metadata", k "output"]) (by simpa [wfAct] using hw)
+          (fun s hs => hb s (by simp at hs ⊢; rcases hs with rfl | rfl <;> simp))
+      | postClient =>
+        exact request_allOf (allowed := [k "id", k "output"]) (by simpa [wfAct] using hw)
+          (fun s hs => hb s (by simp at hs ⊢; rcases hs with rfl | rfl <;> simp))
+      | _ => simp [actOKb] at ha
+    | _ => cases c <;> simp [wfAct] at hw
+  | perms label t f =>
+    simp only [runAct]
+    split
+    · exact ⟨_, rfl, inv_app hi .procInj (stmt_allOf (args := [_]) ha)⟩
+    · split
+      · exact ⟨_, rfl, inv_app hi .procInj (stmt_allOf (args := [_]) ha)⟩
+      · exact ⟨st, rfl, hi⟩
+  | injT label =>
+    cases v with
+    | inj l =>
+      simp only [runAct]
+      split
+      · exact ⟨st, rfl, hi⟩
+      · exact ⟨_, rfl, inv_app hi .procInj (block_allOf ha (injKids_allOf l))⟩
+    | _ => simp [wfAct] at hw
+  | execute =>
+    cases v with
+    | execute l =>
+      obtain ⟨f, hf, haf⟩ := execKids_ok l (by simpa [wfAct] using hw)
+      simp only [runAct, hf]
+      split
+      · exact ⟨st, rfl, hi⟩
+      · exact ⟨_, rfl, inv_app hi .procInj (block_allOf execute_fact haf)⟩
+    | _ => simp [wfAct] at hw
+  | allocator =>
+    exact ⟨_, rfl, inv_app hi .procInj (stmt_allOf (args := [_]) allocator_fact)⟩
+  | gate =>
+    cases v with
+    | gate l =>
+      exact ⟨_, rfl, inv_app hi .stage (block_allOf gate_fact (gateKids_allOf l (by simpa [wfAct] using hw)))⟩
+    | _ => simp [wfAct] at hw
 
 
 end C13
